@@ -2,7 +2,7 @@
    (VariantArray).  The iterator state machine works on machine integers: Z with an explicit
    width W (2^64 for usize on this target) and an explicit overflow mode. *)
 Require Export Strum.Model.Names.
-Open Scope Z_scope.
+Local Open Scope Z_scope.
 
 (* ---------------- the dense constructor table (enum_iter.rs:36-65) ---------------- *)
 Record ctor := { ct_variant : nat; ct_nfields : nat }.     (* E::V(Default::default(), ..) *)
